@@ -260,6 +260,59 @@ def e3_part(prop_arg, config, cases):
     return f
 
 
+
+def e3_single_build(history, config, tag):
+    """Builds the driver around ONE definition given by its history (self-contained replays)."""
+    import re
+    gen = cargo_build("e2_genstage")
+    d = os.path.join(WORK, "gen", "single-%s" % tag)
+    os.makedirs(d, exist_ok=True)
+    hist_file = os.path.join(d, "history_in.json")
+    json.dump({"history": history}, open(hist_file, "w"))
+    rc, out = run([gen, "single", hist_file, d], timeout=600)
+    if rc != 0:
+        return None, d, "e2_genstage single failed: %s" % out[-500:]
+    target, release, features = E3_CONFIGS[config]
+    try:
+        exe = cargo_build("e3_gencrate", target_dir=target + "_r", release=release, features=features, extra_env={"VERIF_GEN_DIR": d})
+    except Inconclusive as e:
+        return None, d, str(e)
+    return exe, d, None
+
+
+def e3_replay_single(prop_arg, history, case, config, tag):
+    """Returns (rc, output) of replaying `case` (definition selector forced to 0) on the single definition."""
+    exe, d, err = e3_single_build(history, config, tag)
+    if exe is None:
+        return 2, err
+    c = dict(case)
+    c["def"] = 0
+    path = os.path.join(d, "case.json")
+    json.dump({"case": c}, open(path, "w"))
+    return run([exe, "replay", prop_arg, path], timeout=600)
+
+
+def e3_minimize(prop_arg, history, case, config, budget=14):
+    """Delta-debugging of the definition: drops one request of its history at a time while the case still
+    fails (each attempt regenerates and recompiles one module)."""
+    def fails(h):
+        rc, out = e3_replay_single(prop_arg, h, case, config, "min")
+        return rc == 1 or rc < 0 or rc in (134, 139)
+    if not fails(history):
+        return None
+    cur = json.loads(json.dumps(history))
+    spent = 0
+    i = 0
+    while i < len(cur.get("reqs", [])) and spent < budget:
+        cand = json.loads(json.dumps(cur))
+        del cand["reqs"][i]
+        spent += 1
+        if fails(cand):
+            cur = cand
+        else:
+            i += 1
+    return cur
+
 MIRIFLAGS = "-Zmiri-symbolic-alignment-check -Zmiri-strict-provenance -Zmiri-disable-isolation"
 MIRI_DEFS = 12
 
@@ -524,6 +577,16 @@ def replay(prop, path):
         if engine.startswith("e3-"):
             extra = data.get("replay_extra", {})
             tier = "thorough" if extra.get("tier_defs") == E3_DEFS["thorough"] else ("fuzz" if extra.get("tier_defs") == FUZZ_DEFS else "quick")
+            if data.get("definition_history") and data.get("signature") not in ("generated-interface-mismatch",) and isinstance(data.get("case"), dict) and "ops" in data["case"]:
+                hist = data.get("minimized_definition_history") or data["definition_history"]
+                rc, out = e3_replay_single(data.get("replay_property", prop), hist, data["case"], engine[3:], "replay")
+                print(out, end="")
+                if rc == 1 or rc < 0 or rc in (134, 139):
+                    print("VIOLATION property=%s replay=%s" % (prop, path))
+                    return 1
+                if rc == 0 and not data.get("minimized_definition_history"):
+                    return 0
+                # fall through to the batch replay when the reduced definition does not reproduce
             exe, d, excluded = e3_build(tier, engine[3:], sd=extra.get("gen_seed", data.get("seed", 1)))
             if data.get("signature") == "generated-interface-mismatch":
                 k = (data.get("case") or {}).get("definition_index")
@@ -593,6 +656,16 @@ def run_check(prop, tier):
                         replay_property=r.get("property", prop),
                         signature=f.get("signature"), message=f.get("message"), case=f.get("case"),
                         seed=seed(), tier=tier)
+            if (r.get("replay_engine") or "").startswith("e3-") and f.get("definition_history") and isinstance(f.get("case"), dict) and "ops" in f["case"] \
+                    and r.get("replay_engine") != "e3-miri" and len(violations) < 1:
+                try:
+                    m = e3_minimize(r.get("property", prop), f["definition_history"], f["case"], r["replay_engine"][3:4])
+                    if m is not None:
+                        body["minimized_definition_history"] = m
+                        body["note"] = "definition reduced by delta debugging from %d to %d requests; the case runs on it with definition selector 0" % (
+                            len(f["definition_history"].get("reqs", [])), len(m.get("reqs", [])))
+                except Inconclusive:
+                    pass
             h = hashlib.sha1(json.dumps(body["case"], sort_keys=True).encode()).hexdigest()[:12]
             path = os.path.join(REPLAYS, "%s-%s.json" % (prop, h))
             with open(path, "w") as fh:
